@@ -138,6 +138,24 @@ Theorem C05_classification_perm_invariant_refuted :
 Proof. exists order_a, order_b. exact AnalysisWitness.order_witness. Qed.
 Print Assumptions C05_classification_perm_invariant_refuted.
 
+(** ... the requalification of variable-based constants is one sweep in document order, not a fixpoint: a computed
+    constant that reads a variable requalified later in the list keeps its role. *)
+Theorem C05_requalification_order_refuted :
+  same_system_reordered requal_a requal_b /\
+  classification_of requal_a = Some (MNla, [(2, RoCompConst); (1, RoAlgebraic); (0, RoAlgebraic)]) /\
+  classification_of requal_b = Some (MNla, [(1, RoAlgebraic); (0, RoAlgebraic); (2, RoAlgebraic)]).
+Proof. exact AnalysisWitness.requal_witness. Qed.
+Print Assumptions C05_requalification_order_refuted.
+
+(** ... and with two equivalent variables in one component, the ORDER OF THE VARIABLES decides between ALGEBRAIC
+    and NLA (check() re-targets to the first equivalent variable of the component, then compares names). *)
+Theorem C05_variable_order_refuted :
+  Forall2 (fun c c' => Permutation (c_vars c) (c_vars c') /\ c_eqs c = c_eqs c') twin_a twin_b /\
+  classification_of twin_a = Some (MAlgebraic, [(0, RoCompConst)]) /\
+  classification_of twin_b = Some (MNla, [(0, RoCompConst)]).
+Proof. exact AnalysisWitness.twin_witness. Qed.
+Print Assumptions C05_variable_order_refuted.
+
 (* NOT PROVED (the _partial of the refutation above): if the first pass alone gives a type to every equation
    (first_pass_complete s = Some true) then every re-ordering of the equations has the same classification.
    Evidence: exhaustive over all one-component systems with <= 4 classes and <= 3 equations / <= 3 classes and <= 4
